@@ -3,7 +3,7 @@
 //! A table of function pointers a deterministic simulator may install at start-up. With no table
 //! installed every function here behaves exactly like the code it stands in for.
 use std::sync::atomic::{AtomicPtr, Ordering};
-use std::sync::{LockResult, RwLock, RwLockReadGuard, RwLockWriteGuard, TryLockError};
+use std::sync::{LockResult, RwLockReadGuard, RwLockWriteGuard, TryLockError};
 use std::time::SystemTime;
 
 /// Simulator entry points.
@@ -43,7 +43,10 @@ pub fn now() -> Option<SystemTime> {
 }
 
 /// `RwLock::read` that never really blocks while a simulator is installed.
-pub fn read<'a, T>(lock: &'a RwLock<T>, site: &'static str) -> LockResult<RwLockReadGuard<'a, T>> {
+pub fn read<'a, T>(
+    lock: &'a std::sync::RwLock<T>,
+    site: &'static str,
+) -> LockResult<RwLockReadGuard<'a, T>> {
     let h = match hooks() {
         Some(h) => h,
         None => return lock.read(),
@@ -58,12 +61,14 @@ pub fn read<'a, T>(lock: &'a RwLock<T>, site: &'static str) -> LockResult<RwLock
         };
         got.is_some()
     });
+    // one more preemption point while the lock is held, so that other threads can observe it as taken
+    (h.point)("lock:held");
     got.expect("block_until returned without the lock")
 }
 
 /// `RwLock::write` that never really blocks while a simulator is installed.
 pub fn write<'a, T>(
-    lock: &'a RwLock<T>,
+    lock: &'a std::sync::RwLock<T>,
     site: &'static str,
 ) -> LockResult<RwLockWriteGuard<'a, T>> {
     let h = match hooks() {
@@ -80,7 +85,42 @@ pub fn write<'a, T>(
         };
         got.is_some()
     });
+    // one more preemption point while the lock is held, so that other threads can observe it as taken
+    (h.point)("lock:held");
     got.expect("block_until returned without the lock")
+}
+
+/// `std::sync::RwLock` whose blocking acquisitions are cooperative while a simulator is installed (and
+/// plain `std` otherwise). Same method signatures as `std`, so the code using it is the same code in
+/// both configurations.
+#[derive(Debug, Default)]
+pub struct RwLock<T>(std::sync::RwLock<T>);
+
+#[allow(missing_docs)]
+impl<T> RwLock<T> {
+    pub const fn new(v: T) -> Self {
+        RwLock(std::sync::RwLock::new(v))
+    }
+    pub fn read(&self) -> LockResult<RwLockReadGuard<'_, T>> {
+        read(&self.0, "rwlock:read")
+    }
+    pub fn write(&self) -> LockResult<RwLockWriteGuard<'_, T>> {
+        write(&self.0, "rwlock:write")
+    }
+    pub fn try_read(&self) -> std::sync::TryLockResult<RwLockReadGuard<'_, T>> {
+        point("rwlock:try_read");
+        self.0.try_read()
+    }
+    pub fn try_write(&self) -> std::sync::TryLockResult<RwLockWriteGuard<'_, T>> {
+        point("rwlock:try_write");
+        self.0.try_write()
+    }
+    pub fn get_mut(&mut self) -> LockResult<&mut T> {
+        self.0.get_mut()
+    }
+    pub fn into_inner(self) -> LockResult<T> {
+        self.0.into_inner()
+    }
 }
 
 /// `std::time::Instant` that follows the simulated wall clock while a simulator provides one (and is
